@@ -9,6 +9,8 @@ def key_fn(case, obs, verdict):
         return "coreutil.Waiter:" + v[2:]
     if v.startswith("eng:"):
         return "engine.instance.Run:" + v[4:]
+    if v.startswith("prof:"):
+        return "engine+composite-profile:" + v[5:]
     return "C04:" + v
 
 
@@ -16,7 +18,8 @@ def run(ctx):
     common.standard(
         ctx, harness="hC04", extracted="C04_model", driver_dir="C04",
         rule=("non-trivial: w cases with >= 2 Wait calls or a token that is >= 2 s late / judged slow; "
-              "eng cases in which some token is >= 2 s late at Shoot entry or discard report; distinct = distinct case lines"),
+              "eng cases in which some token is >= 2 s late at Shoot entry or discard report; prof cases with an unlimited tail or a token >= 2 s late; "
+              "st and near cases always; distinct = distinct case lines"),
         key_fn=key_fn,
         translators=[("consts", "ConstGen.v")],
         bridge_files=["Gen/Waiter_bridge.v"],
